@@ -1,5 +1,6 @@
 import XL.Model.Lex
 import XL.Proofs.Range
+import XL.Proofs.ParseRender
 /-!
 # C01 — formulas are parsed according to Excel's operator grammar
 
@@ -16,7 +17,14 @@ Theorems about the model of the tokeniser and the shunting-yard (`XL.Model.Lex`,
 * `redundant_parentheses`, `blanks_and_case`: instances of spelling independence;
 * `signrun_counterexample`: the pinned code folds sign runs — the model reproduces it (known finding).
 
-The theorem for trees of unbounded depth (`parse_spell`) is in `XL.Props.C01Spell`.
+* **trees of unbounded depth**: `parse_fully_parenthesised` — for EVERY canonical tree (binary
+  operators with operands of any depth, a sign on an operand / parenthesised expression / call, `%` on
+  anything, calls with any number of arguments) the shunting-yard reads the fully parenthesised token
+  rendering (`toks`, the token form of the exported text) back to exactly that tree, by induction on the
+  tree; `extra_parentheses_transparent` — one more pair of parentheses around it changes nothing.
+  `Canon` excludes a sign directly on a sign and a sign directly on a percentage: those spellings
+  (`--x`, `-x%`) group differently (`sign-run`; `-x%` is `(-x)%`, see `sign_and_percent`).  The step from
+  characters to tokens (`XL.Model.Lex`) is covered by the pair / triple theorems and the correspondence.
 -/
 namespace XL.C01
 open XL
@@ -117,5 +125,29 @@ before parsing; the model reproduces it.  The grammar assigns `(1 + (-2 ^ 2))` a
 theorem signrun_counterexample :
     parseR "=1+-2^2" = some "(1 - (2 ^ 2))" ∧ parseR "=--\"3\"" = some "+\"3\"" ∧
     parseR "=1--2" = some "(1 + 2)" := by decide +kernel
+
+/-! ### trees of unbounded depth (token level) -/
+
+/-- **every canonical tree is read back from its fully parenthesised token rendering** -/
+theorem parse_fully_parenthesised (t : Ast) (hc : Canon t) : parseToks (toks t) = .ok t := parse_toks t hc
+
+/-- **redundant parentheses**: an extra pair around the whole formula gives the same tree -/
+theorem extra_parentheses_transparent (t : Ast) (hc : Canon t) : parseToks (.lp :: (toks t ++ [.rp])) = .ok t :=
+  parse_extra_parens t hc
+
+/-- … and around any operand, in any context that expects an operand -/
+theorem extra_parentheses_inside (t : Ast) (hc : Canon t) (s : PState) (he : Expects s.prev) (ht : TopLO s.st) :
+    runToks (.lp :: (toks t ++ [.rp])) s = .ok ⟨bump s.st, t :: s.out, .rparen⟩ := paren_transparent t hc s he ht
+
+/-- non-vacuity: `(1 + (-A1 * SUM(2, 3)%))` is canonical, so its rendering parses back to it -/
+def exTree : Ast :=
+  .op "+" [.operand .num "1", .op "*" [.op "u-" [.operand .range "A1"], .op "%" [.call "SUM" [.operand .num "2", .operand .num "3"]]]]
+
+theorem exTree_canon : Canon exTree := by
+  refine Canon.bin _ _ _ (by decide) (Canon.operand _ _) (Canon.bin _ _ _ (by decide) ?_ ?_)
+  · exact Canon.sign _ _ (by decide) (Canon.operand _ _) rfl
+  · exact Canon.percent _ (Canon.call _ _ (by intro a ha; simp at ha; rcases ha with rfl | rfl <;> exact Canon.operand _ _))
+
+example : parseToks (toks exTree) = .ok exTree := parse_toks exTree exTree_canon
 
 end XL.C01
